@@ -795,7 +795,7 @@ def explore(sc, body_factory, out, **kw):
     return sim, cps
 
 
-def gen_sched(rng, ks=(0, 1, 2, 2, 3, 3), spurious_p=0.0, drift_p=0.0, sweep_p=0.0, opcode_p=0.3):
+def gen_sched(rng, ks=(0, 1, 2, 2, 3, 3), spurious_p=0.0, drift_p=0.0, sweep_p=0.0, opcode_p=0.2):
     d = {"seed": rng.getrandbits(32), "k": rng.choice(ks),
          "spurious": rng.choice([0.0, spurious_p]) if spurious_p else 0.0,
          "drift": rng.choice([0.0, 0.0, drift_p]) if drift_p else 0.0}
